@@ -57,6 +57,7 @@ type scenario struct {
 	Hdr      string     `json:"hdr"`
 	Q        string     `json:"q"`
 	Meas     string     `json:"meas"`
+	Dup      string     `json:"dup"`
 	Decoys   []decoy    `json:"decoys"`
 	Db       string     `json:"db"`
 	Rejected bool       `json:"rejected"`
@@ -198,6 +199,73 @@ func decoyVal(d decoy) interface{} {
 	return decoyStr(d)
 }
 
+// payloadMeas lists the measurement names the payload of the scenario carries.
+func payloadMeas(sc *scenario) []string {
+	switch sc.Dup {
+	case "m_ok_denied":
+		return []string{"cpu", "secret"} // first, last
+	case "m_denied_ok":
+		return []string{"secret", "cpu"}
+	}
+	return measOf(sc.Meas)
+}
+
+type kv struct {
+	k string
+	v interface{}
+}
+
+// encodeMapPairs writes a MessagePack map from an ordered list of pairs; keys may repeat
+// (no encoder API produces that, so the map header and the pairs are written one by one).
+func encodeMapPairs(pairs []kv) ([]byte, error) {
+	var buf bytes.Buffer
+	enc := msgpack.NewEncoder(&buf)
+	if err := enc.EncodeMapLen(len(pairs)); err != nil {
+		return nil, err
+	}
+	for _, p := range pairs {
+		if err := enc.EncodeString(p.k); err != nil {
+			return nil, err
+		}
+		if err := enc.Encode(p.v); err != nil {
+			return nil, err
+		}
+	}
+	return buf.Bytes(), nil
+}
+
+// withDup turns a top-level payload map into ordered pairs with the scenario's duplicate keys:
+// the first occurrence leads, the differing last occurrence trails.
+func withDup(sc *scenario, m map[string]interface{}) []kv {
+	var pairs []kv
+	pm := payloadMeas(sc)
+	switch sc.Dup {
+	case "m_ok_denied", "m_denied_ok":
+		pairs = append(pairs, kv{"m", pm[0]})
+	case "db_dup":
+		pairs = append(pairs, kv{"database", "other"}, kv{"_database", "other"}, kv{"m", m["m"]})
+	default:
+		pairs = append(pairs, kv{"m", m["m"]})
+	}
+	keys := make([]string, 0, len(m))
+	for k := range m {
+		if k != "m" {
+			keys = append(keys, k)
+		}
+	}
+	sort.Strings(keys)
+	for _, k := range keys {
+		pairs = append(pairs, kv{k, m[k]})
+	}
+	switch sc.Dup {
+	case "m_ok_denied", "m_denied_ok":
+		pairs = append(pairs, kv{"m", pm[1]})
+	case "db_dup":
+		pairs = append(pairs, kv{"database", "prod"}, kv{"_database", "prod"})
+	}
+	return pairs
+}
+
 func buildRequest(sc *scenario) (*http.Request, error) {
 	ms := measOf(sc.Meas)
 	var path, ctype string
@@ -261,10 +329,10 @@ func buildRequest(sc *scenario) (*http.Request, error) {
 	switch sc.Form {
 	case "mp_col":
 		path, ctype = "/api/v1/write/msgpack", "application/msgpack"
-		body, err = msgpack.Marshal(mkCol(ms[0]))
+		body, err = encodeMapPairs(withDup(sc, mkCol(ms[0])))
 	case "mp_row":
 		path, ctype = "/api/v1/write/msgpack", "application/msgpack"
-		body, err = msgpack.Marshal(mkRow(ms[0]))
+		body, err = encodeMapPairs(withDup(sc, mkRow(ms[0])))
 	case "mp_batch":
 		path, ctype = "/api/v1/write/msgpack", "application/msgpack"
 		items := []interface{}{}
@@ -453,8 +521,11 @@ func (j *judge) leg(leg string, sc *scenario, status int, checks []check, stored
 						cause = "payload-key-" + d.Name
 					}
 				}
+				if leg != "live" && walClass == "env" && (sc.Dup == "m_ok_denied" || sc.Dup == "m_denied_ok") {
+					cause = "duplicate-m-key-decoded-differently-than-by-the-handler"
+				}
 				if leg == "live" {
-					for _, rm := range measOf(sc.Meas) {
+					for _, rm := range payloadMeas(sc) {
 						if rm == m {
 							cause = "payload-measurement-never-checked"
 						}
@@ -616,7 +687,7 @@ func run(scenPath, arcBin, tmp string, res *result) error {
 		for _, c := range checks {
 			chk = append(chk, []interface{}{c.Db, c.Meas, c.Perm, c.Allowed})
 		}
-		wit := map[string]interface{}{"form": sc.Form, "header_db": sc.Hdr, "query_db": sc.Q, "measurements": measOf(sc.Meas),
+		wit := map[string]interface{}{"form": sc.Form, "header_db": sc.Hdr, "query_db": sc.Q, "measurements": payloadMeas(sc), "duplicate_top_level_keys": sc.Dup,
 			"routing_like_names_in_payload": sc.Decoys, "status": resp.StatusCode, "permission_checks": chk,
 			"stored_live": live, "wal_entries": len(payloads)}
 		if len(res.Samples) < 4 && len(live) > 0 && len(sc.Decoys) > 0 {
